@@ -64,6 +64,14 @@ class FunTerm:
             if isinstance(st, ast.FunctionDef):
                 self.inline_funcs.setdefault(st.name, st)
         self._mutated_names = _mutated_anywhere(body)
+        self._order = {}
+        def _number(n_):
+            self._order[id(n_)] = len(self._order)
+            for c_ in ast.iter_child_nodes(n_):
+                _number(c_)
+        for st_ in body:
+            _number(st_)
+        self._mutation_lines = _mutation_lines(body, self._order)
         r = self.block(body)
         if self._poisoned:
             return OPQ(self._poisoned)
@@ -335,6 +343,13 @@ class FunTerm:
                     r = astx.root_name(e)
                     if r and r in self.env:
                         self.env[r] = OPQ(f"store into {txt(e)}")
+        elif isinstance(t, ast.Subscript) and varname(t.value) is not None and isinstance(value, ast.Name) \
+                and any(ln > getattr(self, "_order", {}).get(id(t), 10 ** 9) for ln in getattr(self, "_mutation_lines", {}).get(value.id, [])):
+            # `D[k] = q` and q is filled in place AFTERWARDS: D holds a reference, not the value q has now
+            nm = varname(t.value)
+            self.env[nm] = OPQ(f"{nm} holds a reference to {value.id}, which is modified in place later")
+            for f_ in self.frames:
+                f_.pending.pop(nm, None)
         elif isinstance(t, ast.Subscript) and varname(t.value) is not None:
             nm = varname(t.value)
             key = self.tr(t.slice)
@@ -679,6 +694,23 @@ def _mutated_anywhere(body) -> set:
                             out.add(varname(e.value))
             elif isinstance(n, ast.Call) and isinstance(n.func, ast.Attribute) and n.func.attr in astx.MUTATOR_METHODS and varname(n.func.value):
                 out.add(varname(n.func.value))
+    return out
+
+
+def _mutation_lines(body, order=None) -> Dict[str, List[int]]:
+    """positions (pre-order index in the function body - spliced code keeps foreign line numbers) at which a name's object is
+    modified in place"""
+    order = order or {}
+    out: Dict[str, List[int]] = {}
+    for st in body:
+        for n in ast.walk(st):
+            if isinstance(n, (ast.Assign, ast.AugAssign, ast.Delete)):
+                for t in (n.targets if isinstance(n, (ast.Assign, ast.Delete)) else [n.target]):
+                    for e in (t.elts if isinstance(t, (ast.Tuple, ast.List)) else [t]):
+                        if isinstance(e, ast.Subscript) and varname(e.value):
+                            out.setdefault(varname(e.value), []).append(order.get(id(n), -1))
+            elif isinstance(n, ast.Call) and isinstance(n.func, ast.Attribute) and n.func.attr in astx.MUTATOR_METHODS and varname(n.func.value):
+                out.setdefault(varname(n.func.value), []).append(order.get(id(n), -1))
     return out
 
 
